@@ -36,7 +36,7 @@ if [ $b -eq 0 ] && [ $s -eq 0 ] && [ $dw -ne 0 ] && [ $dwo -eq 0 ]; then
   [ -f SEEDED.md ] && cp SEEDED.md $out/SEEDED.md
   cat > $out/meta.json <<M
 {"seed_id": "$id", "property": "$prop", "confirmed": {"build_with_change": "ok", "unedited_suite_with_change": "pass", "demo_with_change": "FAIL (exit $dw)", "demo_without_change": "pass"},
- "ran": ["go build ./...", "go test -vet=off -count=1 ./... (demo moved aside)", "go test -run 'Seeded|seeded|Demo' $pk with and without the change (git stash)"],
+ "ran": ["go build ./...", "go test -vet=off -count=1 ./... (demo moved aside)", "go test -run 'Seeded|seeded|Demo' $(echo $pk | tr '\n' ' ') with and without the change (git apply -R)"],
  "needs_to_manifest": "see SEEDED.md", "demo_files": "$(echo $demo | tr '\n' ' ' | tr -s ' ')"}
 M
   echo "KEPT $out"
